@@ -158,7 +158,8 @@ def _run_hw_task(mod, task, tier, prop):
             continue
         nfail += 1
         # the search for a trace from reset is budgeted: first 3 failed obligations of a task, 5 minutes in total
-        budget_ok = nfail <= task.get("max_searched_failures", 3) and time.time() - t_fail < 300
+        budget_ok = nfail <= task.get("max_searched_failures", 2 if tier == "quick" else 4) and \
+            time.time() - t_fail < (60 if tier == "quick" else 600)
         _handle_failure(mod, task, tier, prop, c, r, search=budget_ok)
     return {"results": results, "difftest": dt, "info": info, "contract": c.name}
 
@@ -189,11 +190,11 @@ def _handle_failure(mod, task, tier, prop, c, r, search=True):
     if name in c.windows and trace is not None:
         goal, wdepth = c.windows[name]
         replay["cti"] = _thin(trace)
-        depth = task.get("search_depth", 40 if tier == "quick" else 80)
+        depth = min(task.get("search_depth", 40), 30) if tier == "quick" else task.get("search_depth", 80)
         t0 = time.time()
         try:
             tr2, start = engine.find_window_from_reset(c, goal, wdepth, depth,
-                                                       timeout_ms=task.get("search_timeout_ms", 40000 if tier == "quick" else 120000))
+                                                       timeout_ms=task.get("search_timeout_ms", 15000 if tier == "quick" else 120000))
         except Exception as e:  # noqa
             tr2, start = None, None
             replay["search_error"] = str(e)
@@ -219,7 +220,7 @@ def _handle_failure(mod, task, tier, prop, c, r, search=True):
             t0 = time.time()
             try:
                 tr2 = engine.find_trace_from_reset(c, lambda v: z3.Not(fn(v)), depth,
-                                                   timeout_ms=task.get("search_timeout_ms", 30000 if tier == "quick" else 90000))
+                                                   timeout_ms=task.get("search_timeout_ms", 15000 if tier == "quick" else 90000))
             except Exception as e:  # noqa
                 tr2 = None
                 replay["search_error"] = str(e)
